@@ -178,7 +178,7 @@ def onStart (m : SysMod α) : SysMod α :=
 end SysMod
 
 /-- mirrors: backend/resources.rs::Resources without the mixer: `clocks`, `modulators`, `listeners` (arena in
-    `keys` order + new-resource ring each).  `hung` latches a clock tick loop that did not terminate. -/
+    `keys` order + new-resource ring each).  `hung` latched a clock tick loop that did not terminate; since the tick count is computed (`Clock.tickStep`) it is never set. -/
 structure SysEnv (α : Type) where
   clocks : List (Nat × Clock α)
   newClocks : List (Nat × Clock α)
@@ -225,25 +225,25 @@ def start (e : SysEnv α) : SysEnv α :=
 /-- mirrors: backend/resources/clocks.rs::Clocks::update, backend/resources.rs::SelfReferentialResourceStorage::for_each
     (after `Modulators::process`; Model/ClockSys.lean `Sys.updateClocks` with the
     general modulator store) -/
-def updateClocks (fuel : Nat) (clocks : List (Nat × Clock α)) (mods : ModStore (SysMod α)) (dt : α) :
+def updateClocks (clocks : List (Nat × Clock α)) (mods : ModStore (SysMod α)) (dt : α) :
     Option (List (Nat × Clock α)) :=
-  forEachSelfRef Clock.dummy (fun c view => (c.update fuel dt (infoOf view mods)).map (·.1)) [] clocks
+  forEachSelfRef Clock.dummy (fun c view => some (c.update dt (infoOf view mods)).1) [] clocks
 
 /-- mirrors: backend/renderer.rs::Renderer::process_chunk, backend/resources/modulators.rs::Modulators::process
     (the head of `process_chunk`: `modulators.process(dt·n, &clocks)` (clocks not yet
     updated), then `clocks.update(dt·n, &modulators)` (modulators already updated), then
     backend/resources/listeners.rs::Listeners::update (`listeners.update(dt·n, &clocks, &modulators)`: clocks and
     modulators of this chunk; a listener sees no spatial track, so the self-referential swap is invisible) -/
-def step (fuel : Nat) (e : SysEnv α) (dt : α) : SysEnv α :=
+def step (e : SysEnv α) (dt : α) : SysEnv α :=
   let mods := (ModStore.process SysMod.ops e.mods dt (infoOf (fun id => e.clocks.lookup id) [])).1
-  match updateClocks fuel e.clocks mods dt with
+  match updateClocks e.clocks mods dt with
   | some clocks =>
     { e with mods := mods, clocks := clocks
              listeners := e.listeners.map (fun l => l.updateWith dt (infoOf (fun id => clocks.lookup id) mods)) }
   | none => { e with mods := mods, hung := true }
 
 /-- the environment interface of the renderer model -/
-def envOps (fuel : Nat) : EnvOps α (SysEnv α) := ⟨start, step fuel, mixInfo⟩
+def envOps : EnvOps α (SysEnv α) := ⟨start, step, mixInfo⟩
 
 end SysEnv
 
@@ -439,7 +439,7 @@ namespace System
 variable {n : Nat}
 
 abbrev C (s : System α n) : Comps α (SysSnd α) (SysFx α n) (SysSpatial α) := sysComps s.fuel n
-abbrev V (s : System α n) : EnvOps α (SysEnv α) := SysEnv.envOps s.fuel
+abbrev V (_s : System α n) : EnvOps α (SysEnv α) := SysEnv.envOps
 
 /-- mirrors: manager.rs::AudioManager::new, backend/renderer.rs::Renderer::new, backend/resources/mixer.rs::Mixer::new, track/main.rs::MainTrack::init_effects
     (`main_track.init_effects(sample_rate)`) -/
